@@ -308,8 +308,12 @@ Repl(v, n, val) == IF IsBad(val) THEN Res([v EXCEPT !.stk = PopN(@, n)], val)
 VSt(v) == [vars |-> v.vars, dims |-> v.dims, deft |-> v.deft, fns |-> v.fns, col |-> v.col]
 VKey(nm) == Key(nm.l, nm.id, nm.sfx, <<>>)
 \* Var::store
-VStore(v, key, val) ==
-  LET cv == Assign(TypeOfName(key[1], key[3], v.deft), val) IN
+\* (only after CONT resumed inside a failed statement can the popped entry be a frame marker --
+\* Val::Return / Val::Next convert to nothing: TYPE MISMATCH -- or a loop's name, which is a string)
+VStore(v, key, val0) ==
+  LET val == IF IsMark(val0) THEN Err(ETypeMismatch)
+             ELSE IF val0.t = "nm" THEN MkStr(StrCp(val0.s.id) \o StrCp(val0.s.sfx)) ELSE val0
+      cv == Assign(TypeOfName(key[1], key[3], v.deft), val) IN
   IF IsBad(cv) THEN Res(v, cv) ELSE Ok([v EXCEPT !.vars = Put(@, key, cv)])
 
 TabVal(col, a) ==
